@@ -330,8 +330,8 @@ Print Assumptions c13_text_over_bgzf_truncation_partial.
 (* ---- CSI (model read_csi / w_csi_bytes of NV.Index.CsiLayout = the uncompressed payload):
    an error for every cut below the optional trailing n_no_coor, the index without the count
    inside that field, the index on the whole payload.  The aux block and the sequence names are
-   read through io::Take (a cut right behind a name's NUL parses as a shorter header), but the
-   n_ref field that follows then fails on the exhausted input ---- *)
+   read through io::Take; since repair d82cb79 the names reader demands all l_nm bytes, so the
+   header parser fails on every strict prefix of its written bytes ---- *)
 Theorem c13_csi_truncation : forall i k, csi_ok i ->
   let file := w_csi_bytes i in
   let base := length (w_csi_bytes (csi_no_count i)) in
@@ -341,30 +341,17 @@ Theorem c13_csi_truncation : forall i k, csi_ok i ->
 Proof. exact csi_truncation. Qed.
 Print Assumptions c13_csi_truncation.
 
-(* ---- tabix: the same, PROVIDED a reference sequence follows the header or the header has no
-   names ---- *)
+(* ---- tabix: the same, for EVERY well-formed index (the premise `a reference sequence follows
+   the header or the header has no names` was needed before repair d82cb79: finding
+   tabix-truncated-names-accepted-no-refs, fixed) ---- *)
 Theorem c13_tabix_truncation : forall i hd k, tbi_ok i -> ti_header i = Some hd ->
   let file := w_tbi_bytes i in
   let base := length (w_tbi_bytes (tbi_no_count i)) in
-  ((k < base)%nat -> ti_refs i <> [] \/ h_names hd = [] -> read_tbi (firstn k file) = None) /\
+  ((k < base)%nat -> read_tbi (firstn k file) = None) /\
   ((base <= k < length file)%nat -> read_tbi (firstn k file) = Some (reread_tbi (tbi_no_count i))) /\
   ((length file <= k)%nat -> read_tbi (firstn k file) = Some (reread_tbi i)).
 Proof. exact tbi_truncation. Qed.
 Print Assumptions c13_tabix_truncation.
-
-(* the exceptional class, exactly: a tabix index with names but NO reference sequence.  A cut
-   inside the header is accepted precisely when the header parser accepts the part present (a
-   cut right behind the NUL of a name, or right behind l_nm), giving that shortened header *)
-Theorem c13_tabix_truncation_no_refs : forall i hd k, tbi_ok i -> ti_header i = Some hd -> ti_refs i = [] ->
-  (k < 8 + length (w_header hd))%nat ->
-  read_tbi (firstn k (w_tbi_bytes i)) =
-    if (k <? 8)%nat then None
-    else match p_header (firstn (k - 8) (w_header hd)) with
-         | None => None
-         | Some (h', _) => Some (mktbi (Some h') [] None)
-         end.
-Proof. exact tbi_truncation_no_refs. Qed.
-Print Assumptions c13_tabix_truncation_no_refs.
 
 (* ---- CSI / tabix files = BGZF frames around the payload: composition with c13_bgzf_truncation.
    Whatever the cut of the compressed file, the layered reader is the payload parser on the data
@@ -398,7 +385,6 @@ Print Assumptions c13_csi_over_bgzf_truncation.
 
 Theorem c13_tabix_over_bgzf_truncation :
   forall (inflate : list N -> option (list N)) i hd fs k, tbi_ok i -> ti_header i = Some hd ->
-    ti_refs i <> [] \/ h_names hd = [] ->
     Forall (frame_good inflate) fs ->
     concat (map (frame_data inflate) fs) = w_tbi_bytes i ->
     exists n : nat,
@@ -529,8 +515,8 @@ Example c13_ex_text :
   read_stream (text_read_record ok Eof) (firstn 6 s) = ([[65;66];[67;68]], Eof).
 Proof. vm_compute. repeat split. Qed.
 
-(* CSI: one empty reference and a count; tabix without references but with names "a", "b": the
-   cut behind the NUL of "a" is a valid index with one name *)
+(* CSI: one empty reference and a count; tabix without references but with names "a", "b": every
+   proper prefix is an error, also the cuts behind l_nm and behind the NUL of "a" *)
 Example c13_ex_csi :
   let i := mkcsi 14 5 None [mkcref [] [] None] (Some 7) in
   length (w_csi_bytes i) = 32%nat /\
@@ -544,11 +530,9 @@ Example c13_ex_tabix_no_refs :
   length (w_tbi_bytes ex_tbi_norefs) = 40%nat /\
   read_tbi (w_tbi_bytes ex_tbi_norefs) = Some ex_tbi_norefs /\
   read_tbi (firstn 39 (w_tbi_bytes ex_tbi_norefs)) = None /\
-  read_tbi (firstn 38 (w_tbi_bytes ex_tbi_norefs)) =
-    Some (mktbi (Some (mkhdr FVcf 0 1 None 35 0 [[97]])) [] None) /\
+  read_tbi (firstn 38 (w_tbi_bytes ex_tbi_norefs)) = None /\
   read_tbi (firstn 37 (w_tbi_bytes ex_tbi_norefs)) = None /\
-  read_tbi (firstn 36 (w_tbi_bytes ex_tbi_norefs)) =
-    Some (mktbi (Some (mkhdr FVcf 0 1 None 35 0 [])) [] None).
+  read_tbi (firstn 36 (w_tbi_bytes ex_tbi_norefs)) = None.
 Proof. exact tbi_no_refs_example. Qed.
 
 Example c13_ex_fai :
